@@ -3,7 +3,14 @@
    The machine is generic in the context type C and in how expressions and rows are
    evaluated, so that StmtRefine.v can prove it against the sequential reading once and
    for all; Iter.v instantiates it with the concrete EvalContext model.
-   Panic site: 20 EndIterateInner: loop variable has no integer value. *)
+   Panic site: 20 EndIterateInner: loop variable has no integer value.
+   An evaluation error is returned with `?` AFTER the iterator object has been mutated, and
+   the object can be called again; NErr carries the iterator as it is after the error:
+   - Iterate: the failing statement (let, data row, loop header whose bound fails) has been
+     consumed, the iterator goes on with the rest of the list (no frame pushed for the loop);
+   - StartWhile ws: the state is unchanged (the next call evaluates the condition again);
+   - IterInner / WhileInner: the outer state stays, with the inner iterator in ITS state
+     after the error (it was mutated in place). *)
 From DTR Require Import Prelude I64 Ast.
 Open Scope Z_scope.
 
@@ -33,7 +40,7 @@ with sstate :=
 Inductive nres :=
 | NYield (w : W) (line : N) (it : siter) (c : C)
 | NDone (it : siter) (c : C)
-| NErr (f : F) (c : C)
+| NErr (f : F) (it : siter) (c : C)
 | NPanic (site : N)
 | NOOF.
 
@@ -45,11 +52,11 @@ Fixpoint next (fuel : nat) (it : siter) (c : C) {struct fuel} : nres :=
       match rest with
       | [] => NDone it c
       | SLet n e :: r => let (c1, v) := eval c e in
-          match v with inr x => NErr x c1 | inl z => next f (SI r Iterate) (setv c1 n z) end
+          match v with inr x => NErr x (SI r Iterate) c1 | inl z => next f (SI r Iterate) (setv c1 n z) end
       | SRow d l :: r => let (c1, v) := row_eval c d in
-          match v with inr x => NErr x c1 | inl w => NYield w l (SI r Iterate) c1 end
+          match v with inr x => NErr x (SI r Iterate) c1 | inl w => NYield w l (SI r Iterate) c1 end
       | SLoop v e body :: r => let (c1, m) := eval c e in
-          match m with inr x => NErr x c1
+          match m with inr x => NErr x (SI r Iterate) c1
           | inl m => next f (SI r (StartLoop {| lvar := v; lmax := m; lbody := body |})) c1 end
       | SReset :: r => next f (SI r Iterate) (reset c)
       | SWhile e body :: r => next f (SI r (StartWhile {| wcond := e; wbody := body |})) c
@@ -62,6 +69,7 @@ Fixpoint next (fuel : nat) (it : siter) (c : C) {struct fuel} : nres :=
       match next f inner c with
       | NYield w l inner' c' => NYield w l (SI rest (IterInner inner' ls)) c'
       | NDone _ c' => next f (SI rest (EndInner ls)) c'
+      | NErr x inner' c' => NErr x (SI rest (IterInner inner' ls)) c'
       | o => o
       end
   | EndInner ls =>
@@ -71,13 +79,14 @@ Fixpoint next (fuel : nat) (it : siter) (c : C) {struct fuel} : nres :=
                   else next f (SI rest Iterate) (pop c)
       end
   | StartWhile ws => let (c1, v) := eval c (wcond ws) in
-      match v with inr x => NErr x c1 | inl z =>
+      match v with inr x => NErr x (SI rest (StartWhile ws)) c1 | inl z =>
         if z =? 0 then next f (SI rest Iterate) c1
         else next f (SI rest (WhileInner (SI (wbody ws) Iterate) ws)) c1 end
   | WhileInner inner ws =>
       match next f inner c with
       | NYield w l inner' c' => NYield w l (SI rest (WhileInner inner' ws)) c'
       | NDone _ c' => next f (SI rest (StartWhile ws)) c'
+      | NErr x inner' c' => NErr x (SI rest (WhileInner inner' ws)) c'
       | o => o
       end
   end end end.
